@@ -47,6 +47,8 @@ def _len(I, x):
 
 
 def _minmax(I, args, is_min):
+    if len(args) == 1 and hasattr(args[0], "__vc_max__") and not is_min:
+        return args[0].__vc_max__(I)
     if len(args) == 1:
         args = I.iterate(args[0])
     if all(is_concrete(a) for a in args):
